@@ -106,7 +106,8 @@ dump_die_chain (std::ostream &os, value_die const &d)
 	if (! first) os << ",";
 	first = false;
 	Dwarf_Die dd = imp->get_die ();
-	os << dwarf_dieoffset (&dd);
+	// an import DIE that lives in the alt file: offset with bit 40 set
+	os << (dwarf_dieoffset (&dd) | (die_in_alt (*imp) ? (Dwarf_Off (1) << 40) : 0));
       }
   os << "]";
 }
